@@ -87,9 +87,19 @@ def _shared_names_of(filename):
 def _touches_shared_state(code):
     import dis
     try:
+        prev = None
         for ins in dis.get_instructions(code):
             if ins.opname in ('STORE_GLOBAL', 'DELETE_GLOBAL'):
                 return True
+            # an attribute stored on a class or module object: `SomeClass.attr = ...`, `cls.attr = ...`,
+            # `self.__class__.attr = ...`, `type(self).attr = ...`
+            if ins.opname in ('STORE_ATTR', 'DELETE_ATTR') and prev is not None and code.co_name != '<module>':
+                if prev.opname in ('LOAD_GLOBAL', 'LOAD_NAME') or \
+                        (prev.opname in ('LOAD_FAST', 'LOAD_DEREF') and prev.argval in ('cls', 'klass')) or \
+                        (prev.opname == 'LOAD_ATTR' and prev.argval == '__class__'):
+                    return True
+            if ins.opname not in ('CACHE', 'EXTENDED_ARG', 'NOP'):
+                prev = ins
     except Exception:
         pass
     names, found = _shared_names.get(code.co_filename, (None, False))
@@ -224,16 +234,22 @@ class Baton(object):
         self.tl = threading.local()
         self.anchor_lines = set()
         self.first_seen = [set(), set()]      # distinct anchor locations per logical thread, in order of first hit
+        self.aseq = [[], []]                  # anchor events per logical thread: (file tail, function, line)
+        # LINE events of non-anchor code are needed only by plans that switch at 'any' event
+        self.need_any = any('any' in v for v in plan.values())
 
     def on_line(self, code, line, kind):
         me = getattr(self.tl, 'me', None)
         if me is None:
             return None
+        if kind != 'anchor' and not self.need_any:
+            return mon.DISABLE     # this location stays off until the next start() (restart_events)
         self.count[me] += 1
         hit = self.count[me] in self.plan.get(me, {}).get('any', ())
         if kind == 'anchor':
             self.acount[me] += 1
             self.anchor_lines.add((_tail(code.co_filename), line))
+            self.aseq[me].append((_tail(code.co_filename), code.co_name, line))
             hit = hit or self.acount[me] in self.plan.get(me, {}).get('anchor', ())
             loc = (code.co_filename, code.co_name, line)
             if loc not in self.first_seen[me]:
